@@ -442,6 +442,13 @@ def initial_style_bind(
                 flat_tangents: tuple[Any, ...] | list[Any],
                 **params,
             ) -> tuple[list[Any], list[Any]]:
+                if "lowering_exception" in params and any(
+                    isinstance(p, jc.Tracer) for p in flat_primals
+                ):
+                    # A sampling site differentiated while it is being staged
+                    # (jit(grad(f)), a grad inside seed, ...): inlining its keyless
+                    # sampler here would bake the PRNG key into the program.
+                    raise params["lowering_exception"]
                 primals_out, tangents_out = ad.jvp(
                     lu.wrap_init(impl, params, debug_info=debug_info)
                 ).call_wrapped(flat_primals, flat_tangents)
